@@ -45,8 +45,9 @@ type serverOpts struct {
 	expectKey      ssh.PublicKey
 	wantCert       bool
 	userCA         ssh.PublicKey
-	rekeyThreshold uint64 // 0: package default (no server-initiated re-key in these transfers)
-	defaults       bool   // leave every algorithm list to the package defaults
+	rekeyThreshold uint64     // 0: package default (no server-initiated re-key in these transfers)
+	defaults       bool       // leave every algorithm list to the package defaults
+	steer          *steerRand // non-nil: Config.Rand + tap that steer the shape of K (steer_test.go)
 }
 
 // serverReport is what the Go side observed on one connection.
@@ -163,7 +164,17 @@ func startServer(hs *hostKeySet, o serverOpts) (*goServer, error) {
 		s.conn = nc
 		s.mu.Unlock()
 		defer nc.Close()
-		conn, chans, reqs, err := ssh.NewServerConn(nc, cfg)
+		var conn *ssh.ServerConn
+		var chans <-chan ssh.NewChannel
+		var reqs <-chan *ssh.Request
+		if o.steer != nil {
+			// same code below the prologue; the tap tells the Rand reader the
+			// client's ephemeral value before the server draws its own
+			cfg.Rand = o.steer
+			conn, chans, reqs, err = ssh.VerifNewServerConn(nc, cfg, o.steer.tap())
+		} else {
+			conn, chans, reqs, err = ssh.NewServerConn(nc, cfg)
+		}
 		if err != nil {
 			s.note(func(r *serverReport) { r.HandshakeErr = err.Error() })
 			return
